@@ -895,8 +895,9 @@ class GenA:
         rng.shuffle(variants)
         # reorder-independent: every variant keeps the term order, so all denote nf
         for name, text in variants[: rng.choice([2, 3, 4, 6])]:
+            bases = {b for _, _, _, pn in texts if pn for b, _ in self.model.prefix_names[pn]}
             self.emit({"op": "parse", "literal": text, "kind": "unit", "group": g, "variant": name.split("/")[0],
-                       "nf": M.nf_json(nf), "ambiguous": amb})
+                       "nf": M.nf_json(nf), "ambiguous": amb, "mixed": len(bases) > 1})
 
     def g_adversarial_symbol(self):
         """Define a unit whose symbol is <prefix symbol><existing unit symbol>."""
